@@ -5,7 +5,7 @@ import ast
 import os
 from typing import List, Optional, Tuple
 
-from ..collect import Path, callee_is, run_paths
+from ..collect import default_inline, Path, callee_is, run_paths
 from ..common import calls_in, construct, where
 from ..flow import NONE, Value, contains, show, split_prefix, split_suffix, subterms
 from ..loader import AnalysisError, ClassInfo, FuncInfo, Program, walk_shallow
@@ -395,6 +395,14 @@ def _classify(pa: Path, returned: Value, DIR: Value) -> str:
             if f[2][2][0] != returned:
                 return "other-value"
             seen_eq = True
+        # first component of the relative path: relpath(...).partition(sep)[0] / .split(sep)[0] / .split(sep, 1)[0] == ".."
+        if f[0] == "cmp" and f[1] == "Eq" and t is False and ("const", "..") in (f[2], f[3]):
+            o = f[2] if f[3] == ("const", "..") else f[3]
+            if o[0] == "sub" and o[2] == ("const", 0) and o[1][0] == "call" and o[1][1][0] == "attr" and o[1][1][2] in ("partition", "split") \
+                    and o[1][1][1][0] == "call" and o[1][1][1][1] == ("ext", "os.path.relpath") and o[1][2] and o[1][2][0] in (("ext", "os.sep"), ("ext", "os.path.sep"), ("const", "/")):
+                if o[1][1][1][2][0] != returned:
+                    return "other-value"
+                seen_eq = seen_sep = True
         # commonpath idiom ---------------------------------------------
         if f[0] == "cmp" and f[1] == "Eq" and t is True:
             a, b = f[2], f[3]
@@ -425,6 +433,9 @@ def _classify(pa: Path, returned: Value, DIR: Value) -> str:
     return verdict if verdict != "none" else ("unknown" if rel_calls else "none")
 
 
+_TEXT_SINKS = ("search", "ensure_absolute_path", "startswith", "matches")
+
+
 def wsgi_path_text_uses(p: Program):
     """Every WSGI function that hands the request path to text-level code (route matching, prefix tests, joining with a
     directory): (function, call node, re-decoded?).  A WSGI server delivers PATH_INFO as the path bytes decoded as Latin-1
@@ -435,10 +446,18 @@ def wsgi_path_text_uses(p: Program):
         if not f.module.name.startswith("baize.wsgi"):
             continue
         for c in calls_in(f, deep=True):
-            if not (isinstance(c.func, ast.Attribute) and c.func.attr in ("search", "ensure_absolute_path", "startswith", "matches") and isinstance(c.func.value, ast.Name) and c.func.value.id == "self"):
+            if not (isinstance(c.func, ast.Attribute) and isinstance(c.func.value, ast.Name) and c.func.value.id == "self"):
                 continue
             if not c.args:
                 continue
+            if c.func.attr not in _TEXT_SINKS:
+                # a private helper that hands its first argument on to one of the sinks is a sink itself
+                h_ = p.resolve_call(f, c)
+                if not (isinstance(h_, FuncInfo) and default_inline(h_) and len(h_.params) >= 2):
+                    continue
+                par = h_.params[1]
+                if not any(isinstance(c2.func, ast.Attribute) and c2.func.attr in _TEXT_SINKS and c2.args and isinstance(c2.args[0], ast.Name) and c2.args[0].id == par for c2 in calls_in(h_, deep=True)):
+                    continue
             a0 = c.args[0]
             src = a0
             if isinstance(a0, ast.Name):
